@@ -332,14 +332,28 @@ func (s *Sched) newG(name string) *G {
 	return g
 }
 
-// Go starts f as a simulated goroutine. Outside a run it is a plain go statement.
+// PassthroughGo makes Go start real goroutines outside simulated runs (default: they are dropped).
+var PassthroughGo bool
+
+// DroppedGo counts goroutines that were not started because no run was active.
+var DroppedGo int
+
+// Go starts f as a simulated goroutine.
 func Go(f func()) { GoNamed("", f) }
 
 // GoNamed is Go with a diagnostic name.
 func GoNamed(name string, f func()) {
 	s := S
 	if s == nil {
-		go f()
+		// Outside a simulated run (package initialisation, single-threaded stream
+		// harnesses) goroutines of the code under test are not started: a stray real
+		// goroutine (e.g. the dispatcher of a pool created by a package-level variable)
+		// would later call into the scheduler of a run it does not belong to.
+		if PassthroughGo {
+			go f()
+		} else {
+			DroppedGo++
+		}
 		return
 	}
 	if s.aborting {
